@@ -1,11 +1,11 @@
 SPECIFICATION Spec
 CONSTANTS
-  Threads = {1, 2}
+  Threads = {1, 2, 3, 4}
   Objs = {1}
-  MaxOps = 3
+  MaxOps = 2
   MaxOwn = 2
-  InitOwn = 1
-  CreatorRefs = 1
-  IncMode = "split"
+  InitOwn = 0
+  CreatorRefs = 3
+  IncMode = "atomic"
 INVARIANTS TypeOK Conservation SingleDestruction NotWhileReferenced DestroyedWhenUnreferenced NoUseAfterFree
 CHECK_DEADLOCK FALSE
